@@ -130,15 +130,15 @@ func (c *context) SendMsg(m *protocol.Message) error {
 		sock:   s,
 	}
 
-	m.MakeUnique()
-	m.Header = make([]byte, 4)
-	binary.BigEndian.PutUint32(m.Header, newsurv.id)
-
 	s.Lock()
 	if s.closed || c.closed {
 		s.Unlock()
 		return protocol.ErrClosed
 	}
+	// We are going to modify the message (and we own it from here on).
+	m = m.MakeUnique()
+	m.Header = make([]byte, 4)
+	binary.BigEndian.PutUint32(m.Header, newsurv.id)
 	oldsurv := c.surv
 	newsurv.start(c.recvQLen, c.survExpire)
 	if oldsurv != nil {
